@@ -464,8 +464,8 @@ func init() {
 			last = step("umount", pickLayer(r, ws).Name, "", false)
 		}
 		last.Users = genUsers(r, ws, 2)
-		if r.Chance(1, 4) && last.Cmd.A != "" { // a process chrooted into a directory of the layer that is no part of the mounted tree
-			last.Users = map[string][]lcw.User{last.Cmd.A: {{Root: true, File: r.Pick([]string{"rescue", "packages", "", "generated/x"})}}}
+		if r.Chance(1, 2) && last.Cmd.A != "" { // a process chrooted into a directory of the layer that is no part of the mounted tree
+			last.Users = map[string][]lcw.User{last.Cmd.A: {{Root: true, File: r.Pick([]string{"rescue", "packages", "", "generated/x", "buildx", "overlayfs"})}}}
 		}
 		in.Steps = append(in.Steps, last)
 		if r.Chance(1, 2) {
